@@ -6,6 +6,7 @@ for d in seeded/*/; do
   id=$(basename $d); p=${id%%-*}
   cw=$(sed -n 's/.*"check_with": *"\(C[0-9]*\)".*/\1/p' $d/meta.json 2>/dev/null | head -1); [ -n "$cw" ] && p=$cw   # reported by a sibling check (see meta.json "note")
   [ -f $d/patch.diff ] || continue
+  if grep -q '"expected": *"not-reported"' $d/meta.json 2>/dev/null; then echo "$id: recorded gap (outside the simulated range, see meta.json) - not run"; continue; fi
   git -C $REPO apply $V/${d}patch.diff || { echo "$id: patch does not apply"; miss=1; continue; }
   out=$(./check $p quick --evidence $T/ev --replays $T/rp 2>&1); rc=$?
   git -C $REPO checkout -- .
